@@ -9,6 +9,7 @@ Proof.
   intros E t. destruct o; cbn [spec_owner]; try reflexivity.
   - destruct (single_valued k); [reflexivity|]. unfold union. rewrite !in_app_iff, (E t). reflexivity.
   - unfold minus. rewrite !filter_In, (E t). reflexivity.
+  - apply E.
 Qed.
 
 (* every operation of the history is admissible in the state it is applied to *)
